@@ -45,6 +45,7 @@ def check_C01(tier, seed):
         sweep += families.boundary_budgets(s, ops)
     sweep += families.closure_sessions(seed, 150 if quick else 1500)
     sweep += families.cached_repeat_sessions(seed + 3, 150 if quick else 1500)
+    sweep += families.reentrant_sessions(seed + 5, 150 if quick else 1500)
     cases = engine.run_family(rep, sweep)
     engine.judge_cases(rep, cases, devs, what='recorded run')
     rep.assumptions += ['host functions are the probes/callbacks of harness/vmrun.py (a Python host that catches the limit error is '
